@@ -13,19 +13,10 @@ TRUSTED_BASE = [
 
 HOOK_COMMITS = []
 
-PROPS = {
-    "C14": {
-        "corr": ["Corr/C14Corr.v"],
-        "functions": [r"random\.(NewChacha20PRG|chachaCore\.Read|chachaPRG\.Store|RestoreChacha20PRG)"],
-        "trusted": [
-            "golang.org/x/crypto/chacha20 Cipher modelled by its specification (key, nonce, keystream byte position); exercised against the Gallina RFC 8439 block function on every run",
-            "chacha20.KeySize=32 and NonceSize=12 are constants of the external package (fixed in the translator)",
-        ],
-        "level_text": "Theorems over all seeds, customizers and read-size lists (total <= 2^38 bytes): concatenated reads equal the RFC 8439 keystream; Restore(Store()) after any prefix rebuilds the identical generator; length rejections. Model constants are regenerated from the Go source; the model is run against random.NewChacha20PRG/Read/Store/Restore on every run, together with an independent RFC 8439 oracle on the implementation's own output.",
-        "level_note": "x/crypto chacha20.Cipher is modelled by its specification (exercised, not verified); 2^38-byte bound in the statements; Coq kernel + vm_compute; translator and harness trusted.",
-        "assumptions": [
-            "total output at most 2^38 bytes (32-bit block counter), stated in the theorems",
-            "Go runtime, x/crypto/chacha20 not verified",
-        ],
-    },
-}
+import glob as _glob, json as _json, os as _os
+
+# one JSON file per property under bin/props.d/ (keys: corr, functions, trusted, level_text, level_note,
+# assumptions, optional technique / design_ref / claimed / na_reason)
+PROPS = {}
+for _f in sorted(_glob.glob(_os.path.join(_os.path.dirname(_os.path.abspath(__file__)), "props.d", "*.json"))):
+    PROPS[_os.path.basename(_f)[:-5]] = _json.load(open(_f))
